@@ -511,7 +511,13 @@ def handle (st : St) (seq : String) (f : List String) : St × List String :=
         ({ st with s := s', alt := alt, lastOp := some op, lastOk := ok, pendingDiff := main }, [])
       else
         let d := if r.isSome == ok then [] else [s!"DIFF\t{seq}\toutcome model={r.isSome} impl={outcome}"]
+        -- informational (not a verdict): an observed match result that hands out more than it took in (D2)
+        let info := match op with
+          | .endBlock a ms _ _ => ms.filterMap fun m =>
+              if decide (MatchConserving m) then none
+              else some s!"INFO\t{seq}\tnonconserving app={a} pair={m.pair} inQ={inQ m} outQ={outQ m} inB={inB m} outB={outB m}"
+          | _ => []
         let keepOp := match op with | .block .. => st.lastOp | _ => some op
-        ({ st with s := s', lastOp := keepOp, lastOk := ok }, d)
+        ({ st with s := s', lastOp := keepOp, lastOk := ok }, d ++ info)
 
 end Comdex.Drv.LiqLedger
